@@ -53,15 +53,12 @@ Qed.
 Lemma parse_uint_go_bound t v : parse_uint_go t = Some v -> v < 2 ^ 64.
 Proof.
   assert (H0 : 0 < 2 ^ 64) by reflexivity.
-  unfold parse_uint_go. destruct t as [|c r]; [discriminate|].
   assert (Hd : forall b ds, digits_val b 0 ds = Some v -> v < 2 ^ 64) by (intros; eapply digits_val_bound; eauto).
-  destruct (N.eq_dec c 48) as [->|Hc].
-  - destruct r as [|p [|q ds]]; try apply Hd.
-    destruct (lower p =? 98); [apply Hd|]. destruct (lower p =? 111); [apply Hd|].
-    destruct (lower p =? 120); apply Hd.
-  - intros H. apply (Hd 10 (c :: r)).
-    destruct c as [|p]; [exact H|].
-    destruct p as [p|p|]; try exact H; repeat (destruct p as [p|p|]; try exact H). congruence.
+  unfold parse_uint_go. destruct t as [|c r]; [discriminate|].
+  destruct (c =? 48); [|apply Hd].
+  destruct r as [|p [|q ds]]; try apply Hd.
+  destruct (lower p =? 98); [apply Hd|]. destruct (lower p =? 111); [apply Hd|].
+  destruct (lower p =? 120); apply Hd.
 Qed.
 
 Lemma p_uint_got s v r : p_uint s = PGot false v r -> v < 2 ^ 64.
